@@ -163,7 +163,8 @@ def run_property(prop, tier, seed, nshards=None, quiet=False):
         pass
 
     # ---- merge ----
-    M = {k: Counter() for k in ("evals", "skips", "classes", "outcomes", "calls", "notes")}
+    M = {k: Counter() for k in ("evals", "skips", "classes", "outcomes", "calls", "notes", "options")}
+    option_domains = {}
     sigs, states, transitions = set(), set(), set()
     samples = {}
     violations = []
@@ -171,6 +172,7 @@ def run_property(prop, tier, seed, nshards=None, quiet=False):
     for r in results:
         for k in M:
             M[k].update(r.get(k, {}))
+        option_domains.update(r.get("option_domains", {}))
         sigs.update(r["sigs"])
         states.update(r.get("states", []))
         transitions.update(r.get("transitions", []))
@@ -263,6 +265,9 @@ def run_property(prop, tier, seed, nshards=None, quiet=False):
             "classes_observed": dict(M["classes"]),
             "outcomes": dict(M["outcomes"]),
             "hooked_calls_seen": dict(M["calls"]),
+            "option_values_judged": dict(M["options"]),
+            "option_values_never_judged": sorted("%s=%s)" % (k[:-1], v) for k, dom in option_domains.items() for v in dom
+                                                 if not M["options"].get("%s=%s)" % (k[:-1], v))),
             "distinct_states": len(states),
             "distinct_transitions": len(transitions),
             "notes": dict(M["notes"]),
